@@ -31,6 +31,7 @@ struct Parsed {
 	int nquery = 0, query_ev[8];
 	int nfired = 0; TxS fired[MAXPLAN + 2]; int fired_ev[MAXPLAN + 2];
 	TxS reqBefore; bool reqBeforeTagKnown = true;   // request outstanding when guard processing starts
+	bool reqBeforeKnown = true;                     // false when a plan may have issued a request that the trace cannot show (plans without an attached logger)
 	int nr = 0; Round r[MAXR];
 	int firstGuard = -1, lastGuard = -1;
 	int structErr = 0, structEv = -1;     // guard structure that cannot be segmented into rounds
@@ -53,6 +54,8 @@ inline void parse(const Edge& e, Parsed& P) {
 	if (e.op.k == OP_IMM || e.op.k == OP_CHANGE) req = mkreq(NONE8, e.op.a, 0);
 	if (e.op.k == OP_IMMW || e.op.k == OP_CHANGEW) req = mkreq(NONE8, e.op.a, e.op.b);
 	bool reqTagKnown = true;
+	const bool loggerOn = e.initial ? (VX_LOG && e.op.a != 0) : e.logger_on;
+	P.reqBeforeKnown = !(VX_PLANS && (e.op.k == OP_UPDATE || e.op.k == OP_REACT) && !loggerOn);
 	Round* cur = nullptr; int curGuardEv = -1; int curGuardKind = 0;   // 1 root eg, 2 xg, 3 eg
 	bool inRounds = false;
 	for (int i = 0; i < e.nev; ++i) {
@@ -142,7 +145,7 @@ inline void m01(const Edge& e, const Parsed&) {
 	bool companion = false;   // after a mark the events belong to a copy that inherited (rootIn, cur)
 	for (int i = 0; i < e.nev; ++i) {
 		const Ev& v = e.tr[i];
-		if (v.kind == EV_MARK) { if (v.a == 2) companion = true; continue; }
+		if (v.kind == EV_MARK) { if (v.a == 2 && e.res.ret) companion = true; continue; }
 		if (v.kind != EV_CB || v.inj) continue;
 		const bool rootCb = v.sid == ROOT;
 		if (v.meth == M_ENTER) {
@@ -214,7 +217,7 @@ inline void check_subject_chain(int prop, const Edge& e, const Parsed& P, bool o
 	if (P.structErr) return;
 	const int f = first_req_round(P);
 	// first request round
-	if (!onlyGuardMade && !P.activation) {
+	if (!onlyGuardMade && !P.activation && P.reqBeforeKnown) {
 		if (tx_empty(P.reqBefore)) { if (P.nr > f) flag(prop, "round-without-request", e, "guards ran although no request was outstanding"); }
 		else if (P.nr <= f) { flag(prop, "request-not-processed", e, "outstanding request was not evaluated"); }
 		else if (!same_req(P.r[f].subj, P.reqBefore, P.reqBeforeTagKnown)) flag(prop, "first-subject", e, "round 1 evaluates %d>%d, last request was %d>%d", P.r[f].subj.o, P.r[f].subj.d, P.reqBefore.o, P.reqBefore.d);
@@ -330,7 +333,7 @@ inline void m04(const Edge& e, const Parsed& P) {
 			else if (P.nr && P.r[P.nr - 1].hasReq && !same_req(e.post.req, P.r[P.nr - 1].lastReq, true)) flag(C04, "leftover-mismatch", e, "left over %d>%d", e.post.req.o, e.post.req.d);
 		} else if (used >= L && P.nr && P.r[P.nr - 1].hasReq && L > 0) flag(C04, "leftover-lost", e, "request made in the last permitted round vanished");
 		// a request left over by an earlier call passes guards before it is applied
-		if (!e.initial && !tx_empty(e.pre.req) && (e.op.k == OP_UPDATE || e.op.k == OP_REACT)) {
+		if (!e.initial && !tx_empty(e.pre.req) && (e.op.k == OP_UPDATE || e.op.k == OP_REACT) && P.reqBeforeKnown) {
 			bool replaced = !same_req(P.reqBefore, e.pre.req, true);
 			if (!replaced) { if (P.nr <= f) flag(C04, "leftover-not-guarded", e, "left-over request not evaluated by guards"); else if (!same_req(P.r[f].subj, e.pre.req, true)) flag(C04, "leftover-not-guarded", e, "first round evaluates another request"); }
 		}
@@ -417,6 +420,7 @@ inline void m06(const Edge& e, const Parsed& P) {
 			// locate the round of this guard
 			for (int r = 0; r < P.nr; ++r) if (P.r[r].reg_ev == i || P.r[r].xg_ev == i || P.r[r].eg_ev == i) {
 				if (r != round) { round = r; // a new round took the outstanding request as its subject
+					if (r == first_req_round(P) && !P.reqBeforeKnown) reqKnown = false;
 					if (r >= first_req_round(P) || !P.activation) { if (reqKnown && !same_req(v.pend, req, reqTagKnown) && !(P.activation && r == 0)) flag(C06, "pending-transition", e, "ev %d: pendingTransition() %d>%d, outstanding request was %d>%d", i, v.pend.o, v.pend.d, req.o, req.d); }
 					req = TX_NONE; reqKnown = true; reqTagKnown = true; }
 				TxS acc = accepted_before(P, r);
@@ -446,7 +450,7 @@ inline void m07(const Edge& e, const Parsed& P) {
 	}
 	const int f = first_req_round(P);
 	// the payload the guards see is that of the request they evaluate
-	if (P.nr > f && P.reqBeforeTagKnown && !tx_empty(P.reqBefore)) { const TxS& s = P.r[f].subj; if (same_od(s, P.reqBefore) && ((s.set != 0) != (P.reqBefore.set != 0) || s.tag != P.reqBefore.tag)) flag(C07, "pending-payload", e, "round 1: guards see payload p%d/%d, request carried p%d/%d", s.tag, s.set, P.reqBefore.tag, P.reqBefore.set); }
+	if (P.nr > f && P.reqBeforeTagKnown && P.reqBeforeKnown && !tx_empty(P.reqBefore)) { const TxS& s = P.r[f].subj; if (same_od(s, P.reqBefore) && ((s.set != 0) != (P.reqBefore.set != 0) || s.tag != P.reqBefore.tag)) flag(C07, "pending-payload", e, "round 1: guards see payload p%d/%d, request carried p%d/%d", s.tag, s.set, P.reqBefore.tag, P.reqBefore.set); }
 	for (int i = (P.activation ? 0 : f); i + 1 < P.nr; ++i) { const Round& r = P.r[i]; if (!r.hasReq) continue; const TxS& s = P.r[i + 1].subj; if (same_od(s, r.lastReq) && ((s.set != 0) != (r.lastReq.set != 0) || s.tag != r.lastReq.tag)) flag(C07, "pending-payload", e, "round %d: guards see payload p%d/%d, request carried p%d/%d", i + 2, s.tag, s.set, r.lastReq.tag, r.lastReq.set); }
 	for (int i = 0; i < P.nr; ++i) { const Round& r = P.r[i]; if (r.xg_ev >= 0 && r.eg_ev >= 0 && e.tr[r.eg_ev].pend != e.tr[r.xg_ev].pend) flag(C07, "pending-payload-within-round", e, "round %d", i + 1); }
 	// enter()/reenter() of the destination and previousTransition() afterwards expose the winner's payload
